@@ -128,6 +128,11 @@ func remoteReadAt(client *http.Client, url string, p []byte, off int64) (n int, 
 		return 0, err
 	}
 	defer resp.Body.Close()
+	// Only a partial-content answer carries the requested bytes (a plain 200 does so only for offset 0);
+	// an error page must not be handed back - and cached - as file content.
+	if resp.StatusCode != http.StatusPartialContent && !(resp.StatusCode == http.StatusOK && off == 0) {
+		return 0, fmt.Errorf("unexpected status %q for range request at offset %d of %s", resp.Status, off, url)
+	}
 	{
 		n, err := io.ReadFull(resp.Body, p)
 		if err != nil {
